@@ -97,6 +97,28 @@ def scorer_min_size(spec, p):
     raise ValueError(cls)
 
 
+def score_magnitude(spec, X, length, default="CUSUM"):
+    """Natural magnitude of the cost terms behind a score on an interval of the given length: the rounding
+    error of a score computed in another batch is relative to this, not to the score itself (which may be
+    tiny, e.g. for data in small units)."""
+    import numpy as np
+
+    X = np.asarray(X, dtype=float)
+    p = X.shape[1]
+    M = float(np.max(np.abs(X))) if X.size else 0.0
+    inner = spec
+    while isinstance(inner, dict) and ("cost" in inner or "baseline_cost" in inner):
+        inner = inner.get("cost", inner.get("baseline_cost"))
+    cls = default if inner is None else inner["cls"]
+    if cls.startswith(("Gaussian", "Table", "Function")):
+        return 1.0 + (length if cls.startswith("Gaussian") else 0.0)
+    if cls == "CUSUM":
+        return p * (length ** 0.5) * M
+    if cls == "L1Cost":
+        return p * length * M * float(inner.get("scale", 1.0))
+    return p * length * M * M  # squared-error costs
+
+
 def is_multivariate_scorer(spec):
     if spec is None:
         return False
